@@ -25,7 +25,7 @@
    No symmetry and no normal CDF are needed any more.  end_lo / end_hi hold for the real functions
    iff nu is below about 3e6 .. 2.6e7 (depending on p_th; measured); above, the Student tail is
    so close to the normal one that the interpolation error of boring_t decides: see
-   boring_unsound_without_end_lo (the conclusion is then false) and finding C11-boring-huge-nu. *)
+   boring_unsound_without_end_lo (the conclusion is then false) and finding F22 (C11-boring-huge-nu). *)
 From Coq Require Import ZArith List Bool Lia.
 From CTM Require Import Base.Sx Base.ListX Model.Holm Model.Welch Proofs.HolmP.
 Import ListNotations.
